@@ -390,8 +390,9 @@ Section WithCandidateFinder.
     | _ => None
     end.
 
-  (* Teddy.FindMatch: (start, start + len(patterns[patternID])) *)
-  Definition teddy_findmatch (T : teddy) (h : list N) (s : nat) : option (nat * nat) :=
+  (* Teddy.FindMatch, THE ORIGINAL CODE BEFORE FIX d598647: first hit in bucket order;
+     (start, start + len(patterns[patternID])).  Kept to document why the fix is needed. *)
+  Definition teddy_findmatch_bucket_order (T : teddy) (h : list N) (s : nat) : option (nat * nat) :=
     match teddy_search T h s with
     | Some (Some (p, pid)) => Some (p, p + length (nth pid (pats T) []))
     | _ => None
@@ -403,7 +404,87 @@ End WithCandidateFinder.
    AVX2 and on non-amd64: teddy_fallback.go). *)
 Definition scalar_cand (T : teddy) (hs : list N) : option (nat * N) := find_scalar_candidate T hs 0.
 Definition teddy_find_scalar T := teddy_find (scalar_cand T) T.
+Definition teddy_findmatch_bucket_order_scalar T := teddy_findmatch_bucket_order (scalar_cand T) T.
+
+(* ---- FindMatch after fix d598647 ("FindMatch must report the lowest pattern ID among all
+   candidate buckets").  [teddy_findmatch_bucket_order] above is THE ORIGINAL CODE, BEFORE
+   FIX d598647: it returned the first bucket hit; it is kept, with its refutation, to
+   document why the fix is needed.  Find itself is unchanged by the fix. ---- *)
+
+(* if bestID < 0 || patternID < bestID { bestID = patternID } *)
+Definition better (best : option nat) (pid : nat) : option nat :=
+  match best with
+  | None => Some pid
+  | Some q => if pid <? q then Some pid else Some q
+  end.
+
+(* teddy.go:FindMatch (repaired), inner loop: all set buckets are verified, the lowest
+   pattern id among the hits is kept *)
+Fixpoint verify_mask_min (T : teddy) (hs : list N) (pos : nat) (m : N) (b n : nat)
+                         (best : option nat) : option nat :=
+  match n with
+  | 0 => best
+  | S n' =>
+      if N.testbit m (N.of_nat b) then
+        match verify_bucket T hs pos b with
+        | Some pid => verify_mask_min T hs pos m (S b) n' (better best pid)
+        | None => verify_mask_min T hs pos m (S b) n' best
+        end
+      else verify_mask_min T hs pos m (S b) n' best
+  end.
+
+Section WithCandidateFinderRepaired.
+  Variable cand : list N -> option (nat * N).
+
+  (* teddy.go:FindMatch / teddy_fat.go:FindMatch main loop after the fix *)
+  Fixpoint simd_loop_min (T : teddy) (fuel : nat) (h0 : list N) (acc : nat)
+    : option (option (nat * nat)) :=
+    match fuel with
+    | 0 => None
+    | S f =>
+        let hs := skipn acc h0 in
+        match cand hs with
+        | None => Some None
+        | Some (pos, m) =>
+            match verify_mask_min T hs pos m 0 (nbk T) None with
+            | Some pid => Some (Some (acc + pos, pid))
+            | None =>
+                let next := acc + pos + 1 in
+                if length h0 <=? next then Some None else simd_loop_min T f h0 next
+            end
+        end
+    end.
+
+  (* FindMatch dispatch (unchanged by the fix): bounds check, haystack[start:], < 16 ->
+     findMatchScalar *)
+  Definition teddy_search_min (T : teddy) (h : list N) (s : nat) : option (option (nat * nat)) :=
+    if length h <=? s then Some None
+    else
+      let h0 := skipn s h in
+      if length h0 <? 16
+      then Some (shift s (scalar_loop (pats T) h0 0 (S (length h0) - min_len (pats T))))
+      else option_map (shift s) (simd_loop_min T (S (length h0)) h0 0).
+
+  (* Teddy.FindMatch / FatTeddy.FindMatch, repaired code *)
+  Definition teddy_findmatch (T : teddy) (h : list N) (s : nat) : option (nat * nat) :=
+    match teddy_search_min T h s with
+    | Some (Some (p, pid)) => Some (p, p + length (nth pid (pats T) []))
+    | _ => None
+    end.
+End WithCandidateFinderRepaired.
+
 Definition teddy_findmatch_scalar T := teddy_findmatch (scalar_cand T) T.
+
+(* ids ascending inside every bucket: what buildMasks guarantees (ids are appended in
+   increasing order, teddy.go:288) and what the repaired FindMatch relies on ("IDs are
+   ascending within a bucket").  Checked on the dumped buckets. *)
+Fixpoint ascending (l : list nat) : bool :=
+  match l with
+  | [] => true
+  | x :: r => match r with [] => true | y :: _ => (x <? y) && ascending r end
+  end.
+
+Definition buckets_sorted (T : teddy) : bool := forallb ascending (bkts T).
 
 (* ------------------------------------------------------------------------ *)
 (** * 3. The certified checker [masks_ok] (kind: artifact check)             *)
@@ -941,19 +1022,19 @@ Section SearchCorrect.
     rewrite Hr, <- Hfst. destruct r as [[p pid]|]; reflexivity.
   Qed.
 
-  Theorem teddy_findmatch_start_is_min : forall h s,
-    option_map fst (teddy_findmatch cand T h s) = pf_find (pats T) h s.
+  Theorem teddy_findmatch_bucket_order_start_is_min : forall h s,
+    option_map fst (teddy_findmatch_bucket_order cand T h s) = pf_find (pats T) h s.
   Proof.
-    intros h s. unfold teddy_findmatch. destruct (teddy_search_correct h s) as [r [Hr [Hfst _]]].
+    intros h s. unfold teddy_findmatch_bucket_order. destruct (teddy_search_correct h s) as [r [Hr [Hfst _]]].
     rewrite Hr, <- Hfst. destruct r as [[p pid]|]; reflexivity.
   Qed.
 
   (* the span reported by FindMatch is an occurrence of one of the patterns *)
-  Theorem teddy_findmatch_reports_occurrence : forall h s p e,
-    teddy_findmatch cand T h s = Some (p, e) ->
+  Theorem teddy_findmatch_bucket_order_reports_occurrence : forall h s p e,
+    teddy_findmatch_bucket_order cand T h s = Some (p, e) ->
     exists l, In l (pats T) /\ prefix l (skipn p h) /\ e = p + length l.
   Proof.
-    intros h s p e H. unfold teddy_findmatch in H.
+    intros h s p e H. unfold teddy_findmatch_bucket_order in H.
     destruct (teddy_search_correct h s) as [r [Hr [_ Hrep]]]. rewrite Hr in H.
     destruct r as [[p0 pid]|]; [|discriminate]. injection H as <- <-.
     destruct (Hrep p0 pid eq_refl) as [l [Hl Hpre]]. exists l.
@@ -1045,6 +1126,8 @@ Proof.
   - apply Nat.ltb_ge in E. apply nth_overflow. rewrite map_length, seq_length. lia.
 Qed.
 
+(* The three partial results below are about THE ORIGINAL CODE BEFORE FIX d598647
+   (teddy_findmatch_bucket_order); for the repaired code see teddy_findmatch_leftmost_first. *)
 Section FindMatchCorrect.
   Variable cand : list N -> option (nat * N).
   Variable T : teddy.
@@ -1053,10 +1136,10 @@ Section FindMatchCorrect.
   Hypothesis Hcand : cand_contract T cand.
 
   (* (a) the < 16 byte path is leftmost-first (patterns are tried in pattern order) *)
-  Theorem teddy_findmatch_leftmost_first_short : forall h s,
-    length h - s < 16 -> teddy_findmatch cand T h s = pf_findmatch (pats T) h s.
+  Theorem teddy_findmatch_bucket_order_leftmost_first_short : forall h s,
+    length h - s < 16 -> teddy_findmatch_bucket_order cand T h s = pf_findmatch (pats T) h s.
   Proof.
-    intros h s Hshort. unfold teddy_findmatch, pf_findmatch.
+    intros h s Hshort. unfold teddy_findmatch_bucket_order, pf_findmatch.
     rewrite <- (teddy_find_is_min cand T Hok Hne Hcand h s). unfold teddy_find, teddy_search.
     destruct (length h <=? s) eqn:Hs; [reflexivity|]. apply Nat.leb_gt in Hs. cbv zeta.
     assert (Hlt : length (skipn s h) <? 16 = true) by (apply Nat.ltb_lt; rewrite skipn_length; lia).
@@ -1067,10 +1150,10 @@ Section FindMatchCorrect.
   Qed.
 
   (* (b) any path: leftmost-first when no pattern is a prefix of another *)
-  Theorem teddy_findmatch_leftmost_first_unambiguous : forall h s,
-    unambiguous (pats T) -> teddy_findmatch cand T h s = pf_findmatch (pats T) h s.
+  Theorem teddy_findmatch_bucket_order_leftmost_first_unambiguous : forall h s,
+    unambiguous (pats T) -> teddy_findmatch_bucket_order cand T h s = pf_findmatch (pats T) h s.
   Proof.
-    intros h s Hun. unfold teddy_findmatch, pf_findmatch.
+    intros h s Hun. unfold teddy_findmatch_bucket_order, pf_findmatch.
     destruct (teddy_search_correct cand T Hok Hne Hcand h s) as [r [Hr [Hfst Hrep]]].
     rewrite Hr, <- Hfst. destruct r as [[p pid]|]; [|reflexivity]. cbn [option_map fst].
     destruct (Hrep p pid eq_refl) as [l [Hl Hpre]].
@@ -1128,13 +1211,13 @@ Section FindMatchCorrect.
     - destruct (length h0 <=? acc + pos + 1); [discriminate|]. eapply IH; eauto.
   Qed.
 
-  Theorem teddy_findmatch_leftmost_first_singleton : forall h s,
-    singleton_buckets T -> teddy_findmatch cand T h s = pf_findmatch (pats T) h s.
+  Theorem teddy_findmatch_bucket_order_leftmost_first_singleton : forall h s,
+    singleton_buckets T -> teddy_findmatch_bucket_order cand T h s = pf_findmatch (pats T) h s.
   Proof.
     intros h s Hsing.
     destruct (Nat.lt_ge_cases (length h - s) 16) as [Hshort|Hlong];
-      [now apply teddy_findmatch_leftmost_first_short|].
-    unfold teddy_findmatch, pf_findmatch.
+      [now apply teddy_findmatch_bucket_order_leftmost_first_short|].
+    unfold teddy_findmatch_bucket_order, pf_findmatch.
     rewrite <- (teddy_find_is_min cand T Hok Hne Hcand h s). unfold teddy_find, teddy_search.
     destruct (length h <=? s) eqn:Hs; [reflexivity|]. apply Nat.leb_gt in Hs. cbv zeta.
     assert (Hge : length (skipn s h) <? 16 = false) by (apply Nat.ltb_ge; rewrite skipn_length; lia).
@@ -1145,6 +1228,250 @@ Section FindMatchCorrect.
   Qed.
 
 End FindMatchCorrect.
+
+(* ---- the repaired FindMatch (fix d598647) is leftmost-first on every path ---- *)
+
+Lemma ascending_tail : forall x r, ascending (x :: r) = true -> ascending r = true.
+Proof.
+  intros x [|y r] H; [reflexivity|]. cbn [ascending] in H. apply andb_true_iff in H. tauto.
+Qed.
+
+Lemma ascending_head_lt : forall r x y, ascending (x :: r) = true -> In y r -> x < y.
+Proof.
+  induction r as [|z r IH]; intros x y H Hin; [destruct Hin|].
+  cbn [ascending] in H. apply andb_true_iff in H. destruct H as [Hlt Hr].
+  apply Nat.ltb_lt in Hlt. destruct Hin as [<-|Hin]; auto.
+  specialize (IH z y Hr Hin). lia.
+Qed.
+
+(* in an ascending bucket verifyBucket returns the lowest matching id of the bucket *)
+Lemma verify_ids_sorted_min : forall ps ids t pid,
+  ascending ids = true -> verify_ids ps ids t = Some pid ->
+  forall q l, In q ids -> nth_error ps q = Some l -> is_prefix l t = true -> pid <= q.
+Proof.
+  intros ps. induction ids as [|x ids IH]; intros t pid Hasc H q l Hin Hq Hpre; [destruct Hin|].
+  cbn [verify_ids] in H.
+  destruct (nth_error ps x) as [p|] eqn:Hx.
+  - destruct (is_prefix p t) eqn:Hp.
+    + injection H as <-. destruct Hin as [->|Hin]; [lia|].
+      pose proof (ascending_head_lt _ _ _ Hasc Hin). lia.
+    + destruct Hin as [->|Hin]; [congruence|].
+      eapply IH; eauto using ascending_tail.
+  - destruct Hin as [->|Hin]; [congruence|].
+    eapply IH; eauto using ascending_tail.
+Qed.
+
+Lemma buckets_sorted_nth : forall T b, buckets_sorted T = true -> ascending (nth b (bkts T) []) = true.
+Proof.
+  intros T b H. unfold buckets_sorted in H. rewrite forallb_forall in H.
+  destruct (Nat.lt_ge_cases b (length (bkts T))) as [Hlt|Hge].
+  - apply H. now apply nth_In.
+  - now rewrite nth_overflow.
+Qed.
+
+(* verify_mask_min fails exactly when the first-hit verification fails *)
+Lemma verify_mask_min_none_iff : forall T hs pos m n b best,
+  verify_mask_min T hs pos m b n best = None <->
+  best = None /\ verify_mask T hs pos m b n = None.
+Proof.
+  intros T hs pos m. induction n as [|n IH]; intros b best; cbn [verify_mask_min verify_mask].
+  - tauto.
+  - destruct (N.testbit m (N.of_nat b)); [|apply IH].
+    destruct (verify_bucket T hs pos b) as [pid|]; [|apply IH].
+    rewrite IH. split; [intros [H _] | intros [_ H]]; [|discriminate].
+    destruct best as [q|]; cbn [better] in H; [destruct (pid <? q)|]; discriminate.
+Qed.
+
+Lemma better_spec : forall best pid,
+  exists x, better best pid = Some x /\ x <= pid /\
+            (forall q, best = Some q -> x <= q) /\ (x = pid \/ best = Some x).
+Proof.
+  intros [q|] pid; cbn [better].
+  - destruct (pid <? q) eqn:E.
+    + apply Nat.ltb_lt in E. exists pid. split; [reflexivity|]. split; [lia|].
+      split; [intros q' Hq'; injection Hq' as <-; lia | now left].
+    + apply Nat.ltb_ge in E. exists q. split; [reflexivity|]. split; [lia|].
+      split; [intros q' Hq'; injection Hq' as <-; lia | now right].
+  - exists pid. split; [reflexivity|]. split; [lia|]. split; [intros q Hq; discriminate | now left].
+Qed.
+
+(* ... and when it succeeds it returns the minimum over the hits of all set buckets *)
+Lemma verify_mask_min_some : forall T hs pos m n b best r,
+  verify_mask_min T hs pos m b n best = Some r ->
+  (best = Some r \/
+   exists b', b <= b' < b + n /\ N.testbit m (N.of_nat b') = true /\
+              verify_bucket T hs pos b' = Some r) /\
+  (forall q, best = Some q -> r <= q) /\
+  (forall b' q, b <= b' < b + n -> N.testbit m (N.of_nat b') = true ->
+                verify_bucket T hs pos b' = Some q -> r <= q).
+Proof.
+  intros T hs pos m. induction n as [|n IH]; intros b best r H; cbn [verify_mask_min] in H.
+  - subst best. split; [now left|]. split.
+    + intros q Hq. injection Hq as <-. lia.
+    + intros b' q Hb'. lia.
+  - destruct (N.testbit m (N.of_nat b)) eqn:Hbit;
+      [destruct (verify_bucket T hs pos b) as [pid|] eqn:Hvb|].
+    + apply IH in H. destruct H as [Hsrc [Hbest Hall]].
+      destruct (better_spec best pid) as [x [Hx [Hxp [Hxb Hxsrc]]]].
+      pose proof (Hbest x Hx) as Hrx.
+      split; [|split].
+      * destruct Hsrc as [Hs|[b' [Hb' [Hbit' Hv']]]].
+        -- rewrite Hx in Hs. injection Hs as ->. destruct Hxsrc as [->|Hb]; [|now left].
+           right. exists b. split; [lia | auto].
+        -- right. exists b'. split; [lia | auto].
+      * intros q Hq. specialize (Hxb q Hq). lia.
+      * intros b' q Hb' Hbit' Hv'. destruct (Nat.eq_dec b' b) as [->|Hneq].
+        -- rewrite Hvb in Hv'. injection Hv' as <-. lia.
+        -- eapply Hall; eauto. lia.
+    + apply IH in H. destruct H as [Hsrc [Hbest Hall]]. split; [|split; auto].
+      * destruct Hsrc as [Hs|[b' [Hb' [Hbit' Hv']]]]; [now left|].
+        right. exists b'. split; [lia | auto].
+      * intros b' q Hb' Hbit' Hv'. destruct (Nat.eq_dec b' b) as [->|Hneq]; [congruence|].
+        eapply Hall; eauto. lia.
+    + apply IH in H. destruct H as [Hsrc [Hbest Hall]]. split; [|split; auto].
+      * destruct Hsrc as [Hs|[b' [Hb' [Hbit' Hv']]]]; [now left|].
+        right. exists b'. split; [lia | auto].
+      * intros b' q Hb' Hbit' Hv'. destruct (Nat.eq_dec b' b) as [->|Hneq]; [congruence|].
+        eapply Hall; eauto. lia.
+Qed.
+
+Section FindMatchRepaired.
+  Variable cand : list N -> option (nat * N).
+  Variable T : teddy.
+  Hypothesis Hok : masks_ok T = true.
+  Hypothesis Hne : nonempty (pats T).
+  Hypothesis Hcand : cand_contract T cand.
+
+  (* the repaired loop visits the same candidates and stops at the same position as the
+     loop of Find *)
+  Lemma simd_loop_min_pos : forall fuel h0 acc,
+    option_map (option_map fst) (simd_loop_min cand T fuel h0 acc) =
+    option_map (option_map fst) (simd_loop cand T fuel h0 acc).
+  Proof.
+    induction fuel as [|f IH]; intros h0 acc; [reflexivity|].
+    cbn [simd_loop_min simd_loop]. destruct (cand (skipn acc h0)) as [[pos m]|]; [|reflexivity].
+    destruct (verify_mask_min T (skipn acc h0) pos m 0 (nbk T) None) as [a|] eqn:E1;
+    destruct (verify_mask T (skipn acc h0) pos m 0 (nbk T)) as [b|] eqn:E2.
+    - reflexivity.
+    - exfalso. assert (verify_mask_min T (skipn acc h0) pos m 0 (nbk T) None = None)
+        by (apply verify_mask_min_none_iff; auto). congruence.
+    - apply verify_mask_min_none_iff in E1. destruct E1 as [_ E1]. congruence.
+    - destruct (length h0 <=? acc + pos + 1); [reflexivity | apply IH].
+  Qed.
+
+  Lemma teddy_search_min_pos : forall h s,
+    option_map (option_map fst) (teddy_search_min cand T h s) =
+    option_map (option_map fst) (teddy_search cand T h s).
+  Proof.
+    intros h s. unfold teddy_search_min, teddy_search.
+    destruct (length h <=? s); [reflexivity|]. cbv zeta.
+    destruct (length (skipn s h) <? 16); [reflexivity|].
+    pose proof (simd_loop_min_pos (S (length (skipn s h))) (skipn s h) 0) as H.
+    destruct (simd_loop_min cand T (S (length (skipn s h))) (skipn s h) 0) as [[[p pid]|]|];
+    destruct (simd_loop cand T (S (length (skipn s h))) (skipn s h) 0) as [[[p' pid']|]|];
+      cbn [option_map fst shift] in *; try discriminate; try reflexivity.
+    injection H as ->. reflexivity.
+  Qed.
+
+  Theorem teddy_findmatch_start_is_min : forall h s,
+    option_map fst (teddy_findmatch cand T h s) = pf_find (pats T) h s.
+  Proof.
+    intros h s. rewrite <- (teddy_find_is_min cand T Hok Hne Hcand h s).
+    unfold teddy_findmatch, teddy_find. pose proof (teddy_search_min_pos h s) as H.
+    destruct (teddy_search_min cand T h s) as [[[p pid]|]|];
+    destruct (teddy_search cand T h s) as [[[p' pid']|]|];
+      cbn [option_map fst] in *; try discriminate; try reflexivity.
+    injection H as ->. reflexivity.
+  Qed.
+
+  Theorem teddy_search_min_fuel_ok : forall h s, teddy_search_min cand T h s <> None.
+  Proof.
+    intros h s H. pose proof (teddy_search_min_pos h s) as E. rewrite H in E. cbn in E.
+    pose proof (teddy_search_fuel_ok cand T Hok Hne Hcand h s).
+    destruct (teddy_search cand T h s); [discriminate | congruence].
+  Qed.
+
+  Hypothesis Hsorted : buckets_sorted T = true.
+
+  (* the heart of the fix: the minimum id over the hits of all set buckets is the first
+     pattern, in pattern order, that matches at the candidate position *)
+  Lemma verify_mask_min_first : forall hs pos m pid,
+    (forall b, N.testbit (cmask T (skipn pos hs)) b = true -> N.testbit m b = true) ->
+    verify_mask_min T hs pos m 0 (nbk T) None = Some pid ->
+    pos < length hs /\ first_match (pats T) (skipn pos hs) 0 = Some pid.
+  Proof.
+    intros hs pos m pid Hsup Hv. apply verify_mask_min_some in Hv.
+    destruct Hv as [[Hs|[b [Hb [Hbit Hvb]]]] [_ Hall]]; [discriminate|].
+    unfold verify_bucket in Hvb. destruct (length hs <=? pos) eqn:Hpos; [discriminate|].
+    apply Nat.leb_gt in Hpos. split; [exact Hpos|].
+    apply verify_ids_some in Hvb. destruct Hvb as [_ [l [Hl Hpre]]].
+    destruct (first_match (pats T) (skipn pos hs) 0) as [pid0|] eqn:F.
+    - pose proof F as F'. apply first_match_some in F'.
+      destruct F' as [_ [l0 [Hl0 [Hpre0 Hbefore]]]]. rewrite Nat.sub_0_r in Hl0, Hbefore.
+      f_equal.
+      assert (Hge : pid0 <= pid).
+      { destruct (Nat.le_gt_cases pid0 pid) as [H|H]; auto.
+        rewrite (Hbefore pid l H Hl) in Hpre. discriminate. }
+      assert (Hpre0' : prefix l0 (skipn pos hs)) by now apply is_prefix_iff.
+      destruct (masks_ok_sound T pid0 l0 hs pos Hok Hl0 Hpre0') as [b0 [Hb0 [Hin0 Hbit0]]].
+      destruct (verify_ids (pats T) (nth b0 (bkts T) []) (skipn pos hs)) as [q|] eqn:Hq.
+      + assert (Hq0 : q <= pid0).
+        { eapply verify_ids_sorted_min; eauto using buckets_sorted_nth. }
+        assert (Hpq : pid <= q).
+        { apply (Hall b0 q); [lia | apply Hsup; exact Hbit0 |].
+          unfold verify_bucket. apply Nat.leb_gt in Hpos. now rewrite Hpos. }
+        lia.
+      + rewrite (verify_ids_none _ _ _ Hq pid0 l0 Hin0 Hl0) in Hpre0. discriminate.
+    - apply first_match_none_iff in F. exfalso.
+      assert (existsb (fun l => is_prefix l (skipn pos hs)) (pats T) = true).
+      { apply existsb_exists. exists l. split; auto. eapply nth_error_In; eauto. }
+      congruence.
+  Qed.
+
+  Lemma simd_loop_min_first : forall fuel h0 acc p pid,
+    simd_loop_min cand T fuel h0 acc = Some (Some (p, pid)) ->
+    first_match (pats T) (skipn p h0) 0 = Some pid.
+  Proof.
+    induction fuel as [|f IH]; intros h0 acc p pid H; [discriminate|].
+    cbn [simd_loop_min] in H. pose proof (Hcand (skipn acc h0)) as Hc.
+    destruct (cand (skipn acc h0)) as [[pos m]|]; [|discriminate].
+    destruct Hc as [Hsup _].
+    destruct (verify_mask_min T (skipn acc h0) pos m 0 (nbk T) None) as [pid'|] eqn:Hv.
+    - injection H as <- <-. rewrite <- skipn_skipn_add.
+      eapply verify_mask_min_first; eauto.
+    - destruct (length h0 <=? acc + pos + 1); [discriminate|]. eapply IH; eauto.
+  Qed.
+
+  (* MAIN THEOREM for the repaired FindMatch: the leftmost-first span, for every haystack
+     and start (scalar path and candidate path), slim and fat.  [buckets_sorted] is
+     checked on the dumped buckets; buildMasks guarantees it (new_teddy_buckets_sorted). *)
+  Theorem teddy_findmatch_leftmost_first : forall h s,
+    teddy_findmatch cand T h s = pf_findmatch (pats T) h s.
+  Proof.
+    intros h s. unfold pf_findmatch. rewrite <- (teddy_findmatch_start_is_min h s).
+    unfold teddy_findmatch, teddy_search_min.
+    destruct (length h <=? s) eqn:Hs; [reflexivity|]. apply Nat.leb_gt in Hs. cbv zeta.
+    destruct (length (skipn s h) <? 16).
+    - destruct (scalar_loop (pats T) (skipn s h) 0 (S (length (skipn s h)) - min_len (pats T)))
+        as [[p pid]|] eqn:E; cbn [shift option_map fst]; [|reflexivity].
+      apply scalar_loop_first in E. rewrite skipn_skipn_add in E. now rewrite E.
+    - destruct (simd_loop_min cand T (S (length (skipn s h))) (skipn s h) 0) as [[[p pid]|]|] eqn:E;
+        cbn [option_map shift fst]; try reflexivity.
+      apply simd_loop_min_first in E. rewrite skipn_skipn_add in E. now rewrite E.
+  Qed.
+
+  Corollary teddy_findmatch_reports_occurrence : forall h s p e,
+    teddy_findmatch cand T h s = Some (p, e) ->
+    exists l, In l (pats T) /\ prefix l (skipn p h) /\ e = p + length l.
+  Proof.
+    intros h s p e H. rewrite teddy_findmatch_leftmost_first in H. unfold pf_findmatch in H.
+    destruct (pf_find (pats T) h s) as [p0|]; [|discriminate].
+    destruct (first_match (pats T) (skipn p0 h) 0) as [pid|] eqn:F; [|discriminate].
+    injection H as <- <-. apply first_match_some in F. destruct F as [_ [l [Hl [Hpre _]]]].
+    rewrite Nat.sub_0_r in Hl. exists l. split; [eapply nth_error_In; eauto|].
+    split; [now apply is_prefix_iff|]. now rewrite (nth_error_nth _ _ _ Hl).
+  Qed.
+End FindMatchRepaired.
 
 (* ------------------------------------------------------------------------ *)
 (** * 7. Model of NewTeddy / buildMasks / NewFatTeddy / buildFatMasks        *)
@@ -1253,7 +1580,9 @@ Proof.
   do 17 (destruct n as [|n]; [reflexivity|]). lia.
 Qed.
 
-(* ---- the refutation: FindMatch is NOT leftmost-first for > 8 overlapping literals ---- *)
+(* ---- the refutation, for THE ORIGINAL CODE BEFORE FIX d598647 (teddy_findmatch_bucket_order):
+   FindMatch was NOT leftmost-first for > 8 overlapping literals; the repaired model gives the
+   right span on the same inputs (teddy_findmatch_witness_repaired) ---- *)
 
 (* xxx0|abcd|xxx2|xxx3|xxx4|xxx5|xxx6|xxx7|abc  (pattern order as written) *)
 Definition witness_pats : list (list N) :=
@@ -1268,22 +1597,22 @@ Definition witness_hay : list N := (repeat 46 20 ++ [97;98;99;100] ++ repeat 46 
    start position is right, and yet the reported span is [20,23] ("abc", pattern 8, which
    shares bucket 0 with pattern 0) instead of the leftmost-first [20,24] ("abcd",
    pattern 1, bucket 1). *)
-Theorem teddy_findmatch_leftmost_first_refuted :
+Theorem teddy_findmatch_bucket_order_leftmost_first_refuted :
   exists ps h s,
     let T := new_teddy ps 2 in
     2 <= length ps <= 32 /\
     forallb (fun l => 3 <=? length l) ps = true /\
     masks_ok T = true /\
-    teddy_findmatch_scalar T h s = Some (20, 23) /\
+    teddy_findmatch_bucket_order_scalar T h s = Some (20, 23) /\
     pf_findmatch ps h s = Some (20, 24).
 Proof.
   exists witness_pats, witness_hay, 0. cbv zeta.
   split; [cbn; lia|]. repeat split; vm_compute; reflexivity.
 Qed.
 
-Corollary teddy_findmatch_not_leftmost_first :
+Corollary teddy_findmatch_bucket_order_not_leftmost_first :
   ~ (forall T h s, masks_ok T = true -> nonempty (pats T) ->
-       teddy_findmatch_scalar T h s = pf_findmatch (pats T) h s).
+       teddy_findmatch_bucket_order_scalar T h s = pf_findmatch (pats T) h s).
 Proof.
   intros H. specialize (H (new_teddy witness_pats 2) witness_hay 0).
   assert (Hok : masks_ok (new_teddy witness_pats 2) = true) by (vm_compute; reflexivity).
@@ -1300,13 +1629,13 @@ Definition fat_witness_pats : list (list N) :=
    map (fun d => [120;120;48 + d / 10;48 + d mod 10]) [2;3;4;5;6;7;8;9;10;11;12;13;14;15] ++
    [[97;98;99]])%N.
 
-Theorem fat_teddy_findmatch_leftmost_first_refuted :
+Theorem fat_teddy_findmatch_bucket_order_leftmost_first_refuted :
   exists ps h s,
     let T := new_fat_teddy ps 2 in
     2 <= length ps <= 64 /\
     forallb (fun l => 3 <=? length l) ps = true /\
     masks_ok T = true /\
-    teddy_findmatch_scalar T h s = Some (20, 23) /\
+    teddy_findmatch_bucket_order_scalar T h s = Some (20, 23) /\
     pf_findmatch ps h s = Some (20, 24).
 Proof.
   exists fat_witness_pats, witness_hay, 0. cbv zeta.
@@ -1565,6 +1894,60 @@ Proof.
       apply Hin'. split; [lia | reflexivity].
 Qed.
 
+Lemma ascending_app_last : forall l y,
+  ascending l = true -> (forall x, In x l -> x < y) -> ascending (l ++ [y]) = true.
+Proof.
+  induction l as [|x l IH]; intros y Hasc Hlt; [reflexivity|].
+  destruct l as [|z l].
+  - cbn. rewrite andb_true_r. apply Nat.ltb_lt. apply Hlt. now left.
+  - cbn [ascending] in Hasc. apply andb_true_iff in Hasc. destruct Hasc as [Hxz Hr].
+    change ((x :: z :: l) ++ [y]) with (x :: (z :: l) ++ [y]).
+    assert (E : ascending (x :: (z :: l) ++ [y]) = (x <? z) && ascending ((z :: l) ++ [y])) by reflexivity.
+    rewrite E, Hxz. cbn [andb]. apply IH; auto. intros w Hw. apply Hlt. now right.
+Qed.
+
+Lemma forallb_upd_nth : forall (A : Type) (P : A -> bool) (f : A -> A) (d : A) l k,
+  forallb P l = true -> (k < length l -> P (f (nth k l d)) = true) ->
+  forallb P (upd_nth k f l) = true.
+Proof.
+  intros A P f d. induction l as [|x l IH]; intros k Hall Hk; [destruct k; reflexivity|].
+  cbn [forallb] in Hall. apply andb_true_iff in Hall. destruct Hall as [Hx Hl].
+  destruct k as [|k]; cbn [upd_nth forallb].
+  - rewrite Hl, andb_true_r. apply Hk. cbn; lia.
+  - rewrite Hx. cbn [andb]. apply IH; auto. intros Hlt. apply Hk. cbn; lia.
+Qed.
+
+Lemma build_buckets_sorted : forall nb n pid bs,
+  (forall b x, In x (nth b bs []) -> x < pid) ->
+  forallb ascending bs = true ->
+  forallb ascending (build_buckets nb n pid bs) = true.
+Proof.
+  intros nb. induction n as [|n IH]; intros pid bs Hlt Hasc; cbn [build_buckets]; auto.
+  apply IH.
+  - intros b x Hin. rewrite nth_upd_nth in Hin.
+    destruct ((b =? pid mod nb) && (pid mod nb <? length bs)).
+    + apply in_app_iff in Hin. destruct Hin as [Hin|[<-|[]]]; [|lia].
+      specialize (Hlt _ _ Hin). lia.
+    + specialize (Hlt _ _ Hin). lia.
+  - apply forallb_upd_nth with (d := []); auto. intros Hk.
+    apply ascending_app_last.
+    + rewrite forallb_forall in Hasc. apply Hasc. now apply nth_In.
+    + intros x Hx. eapply Hlt; eauto.
+Qed.
+
+Lemma nth_repeat_nil : forall (A : Type) n b (x : A), ~ In x (nth b (repeat [] n) []).
+Proof. intros A. induction n as [|n IH]; intros [|b] x; cbn; auto. Qed.
+
+(* buildMasks appends pattern ids in increasing order: every bucket is ascending *)
+Theorem new_teddy_buckets_sorted : forall isfat ps fp,
+  buckets_sorted (new_teddy_gen isfat ps fp) = true.
+Proof.
+  intros isfat ps fp. unfold buckets_sorted. rewrite new_teddy_bkts. cbv zeta.
+  apply build_buckets_sorted.
+  - intros b x Hin. exfalso. eapply nth_repeat_nil; eauto.
+  - generalize (if isfat then 16 else Nat.min 8 (length ps)). induction n; cbn; auto.
+Qed.
+
 (* end-to-end for the model: NewTeddy/NewFatTeddy (any fingerprint configuration, any
    number of non-empty patterns) followed by Find with the pure Go candidate finder is
    pf_find -- no artifact, no hypothesis *)
@@ -1578,6 +1961,27 @@ Proof.
   - now apply new_teddy_masks_ok.
   - now rewrite new_teddy_pats.
 Qed.
+
+(* ... and the repaired FindMatch of the model's own NewTeddy/NewFatTeddy is leftmost-first,
+   for every pattern list, haystack and start *)
+Theorem new_teddy_findmatch_leftmost_first : forall isfat ps fp h s,
+  ps <> [] -> nonempty ps ->
+  teddy_findmatch_scalar (new_teddy_gen isfat ps fp) h s = pf_findmatch ps h s.
+Proof.
+  intros isfat ps fp h s Hne Hnonempty. unfold teddy_findmatch_scalar.
+  rewrite teddy_findmatch_leftmost_first.
+  - now rewrite new_teddy_pats.
+  - now apply new_teddy_masks_ok.
+  - now rewrite new_teddy_pats.
+  - apply scalar_cand_contract.
+  - apply new_teddy_buckets_sorted.
+Qed.
+
+(* the inputs that refute the original code give the leftmost-first span after the fix *)
+Theorem teddy_findmatch_witness_repaired :
+  teddy_findmatch_scalar (new_teddy witness_pats 2) witness_hay 0 = Some (20, 24) /\
+  teddy_findmatch_scalar (new_fat_teddy fat_witness_pats 2) witness_hay 0 = Some (20, 24).
+Proof. split; vm_compute; reflexivity. Qed.
 
 (* ------------------------------------------------------------------------ *)
 (** * 8. The other prefilters                                                *)
@@ -1994,7 +2398,7 @@ Definition forced_scalar (T : teddy) (h : list N) (s : nat) : option (nat * nat)
 Definition check_dump (d : tdump) : bool :=
   let T := td_T d in
   let T' := new_teddy_gen (fat T) (pats T) (td_cfgfp d) in
-  masks_ok T &&
+  masks_ok T && buckets_sorted T &&
   (fplen (tm T) =? fplen (tm T')) &&
   list_eqb (list_eqb N.eqb) (lo (tm T)) (lo (tm T')) &&
   list_eqb (list_eqb N.eqb) (hi (tm T)) (hi (tm T')) &&
